@@ -937,6 +937,9 @@ pub fn payloads(g: &mut G, tag: &str) -> Vec<(&'static str, Vec<u8>)> {
             "sgr-controls",
             format!("\x1b[31m{}-red\x1b[0m\ttab\x07bel\r\n{}\x08bs \x1b[1mlone\x1b[m\rcr\n\x0c{}-ff\x0b\n", tag, tag, tag).into_bytes(),
         ),
+        // an escape sequence BETWEEN a CR and a LF: what the command wrote has no CR LF pair -
+        // the order of the two documented transformations matters
+        ("sgr-between-cr-lf", format!("{}-a\r\x1b[0m\n{}-b\r\x1b[1;31m\x1b[m\n\x1b[32m{}-c\x1b[0m\r\n", tag, tag, tag).into_bytes()),
         ("divider-like", format!("~~~~~~~~EXECDIVIDER::x::0::0\n{}\n", tag).into_bytes()),
         ("divider-prefix-only", format!("{} ~~~~~~~~EXECDIVIDER::\n", tag).into_bytes()),
         ("divider-like-unterminated", format!("{}\n~~~~~~~~EXECDIVIDER::x::1::7", tag).into_bytes()),
